@@ -7,7 +7,7 @@
 
        step (projd hid st) ev = (projd hid (fst (step st ev)), snd (step st ev)).                       *)
 From Coq Require Import List ZArith Bool Lia.
-From BLB Require Import Gen.Consts Cluster.Model Cluster.Proofs Cluster.Frame Cluster.Inv Cluster.Sched.
+From BLB Require Import Gen.Consts Cluster.Model Cluster.Proofs Cluster.Frame Cluster.Inv Cluster.Window Cluster.Sched.
 Import ListNotations.
 Open Scope Z_scope.
 
@@ -240,6 +240,14 @@ Proof.
   intros h st t t' T I E. apply NI_same; auto. intros x Hx. cbn in Hx. apply upd_task_in in Hx as [Hx|Hx]; [exact (T x Hx)|]. subst x. rewrite E. exact (T t I).
 Qed.
 
+Lemma NI_fold_issue : forall h st s1 s2 (f : Z -> rpc) o l,
+  NI h st s1 s2 -> NI h st (fold_left (fun s x => issue_cur s (f x) o) l s1) (fold_left (fun s x => issue_cur s (f x) o) l s2).
+Proof.
+  intros h st s1 s2 f o l (E0 & K0 & T0). split; [rewrite E0; apply fold_issue_projd|]. split.
+  - destruct (fold_issue_dur f o l s2) as [B D]. eapply hkeep_trans; [exact K0|]. apply hkeep_same; auto.
+  - intros x Hx. rewrite fold_issue_tasks in Hx. exact (T0 x Hx).
+Qed.
+
 Lemma NI_task_reply : forall h st op err hint, T1 h st -> NI h st (task_reply (projd h st) op err hint) (task_reply st op err hint).
 Proof.
   intros h st op err hint T. unfold task_reply. change (s_tasks (projd h st)) with (s_tasks st).
@@ -252,12 +260,7 @@ Proof.
   change (known_of (projd h st) (t_gen t)) with (known_of st (t_gen t)).
   destruct ((t_kind t =? 5) && (t_phase t =? 1)).
   - split_all; try apply FW.
-    match goal with |- NI h st (fold_left ?f ?l (set_tasks (projd h st) ?v)) _ =>
-      assert (N0 : NI h st (set_tasks (projd h st) v) (set_tasks st v)) by (apply (NI_upd_task h st t); auto) end.
-    destruct N0 as (E0 & K0 & T0). split; [rewrite E0; apply fold_issue_projd|]. split.
-    + match goal with |- hkeep h st (fold_left (fun s x => issue_cur s (?f x) ?o) ?l ?s0) => destruct (fold_issue_dur f o l s0) as [B D] end.
-      apply hkeep_same; [rewrite B | rewrite D]; reflexivity.
-    + intros x Hx. rewrite fold_issue_tasks in Hx. exact (T0 x Hx).
+    apply NI_fold_issue. apply (NI_upd_task h st t); auto.
   - rewrite (change_tract_projd h st) by exact Hb.
     destruct (change_tract_keep h st (t_term t) (t_blob t) (t_tract t) (t_dv t + 1)
                 (if is_perm (after_sep hint) (if t_kind t =? 5 then t_ok t ++ t_new t else t_ok t) then after_sep hint
@@ -308,4 +311,239 @@ Proof.
   unfold flush; fold flush. change (s_pool (projd h st)) with (s_pool st).
   destruct (find _ (s_pool st)) as [e|]; [|apply NI_same; auto].
   apply (NI_chain h st _ _ (fun s => flush n s hint)); [now apply NI_resume | intros s Ts; now apply IH].
+Qed.
+
+(* ------------------------------------------------------------------ executing an RPC *)
+Lemma tracts_of_range_projd : forall h st gen blob a b, h blob = false ->
+  tracts_of_range (projd h st) gen blob a b = tracts_of_range st gen blob a b.
+Proof.
+  intros h st gen blob a b H. unfold tracts_of_range. change (known_of (projd h st) gen) with (known_of st gen).
+  apply map_ext. intros i. rewrite tget_projd. unfold tkey. cbn [fst]. rewrite H. reflexivity.
+Qed.
+
+Lemma exec_gettracts_projd : forall h st r, h (k_blob r) = false -> exec_gettracts (projd h st) r = exec_gettracts st r.
+Proof.
+  intros h st r H. unfold exec_gettracts. rewrite zget_projd, H. change (s_acked (projd h st)) with (s_acked st). change (s_gen (projd h st)) with (s_gen st).
+  destruct (zget (s_blobs st) (k_blob r)) as [[rp nt]|]; [|reflexivity]. rewrite tracts_of_range_projd by exact H. reflexivity.
+Qed.
+
+Lemma exec_extend_projd : forall h st r o, h (k_blob r) = false -> exec_extend (projd h st) r o = exec_extend st r o.
+Proof.
+  intros h st r o H. unfold exec_extend. rewrite zget_projd, H. change (s_gen (projd h st)) with (s_gen st).
+  change (known_of (projd h st) (s_gen st)) with (known_of st (s_gen st)). reflexivity.
+Qed.
+
+Lemma exec_rpc_projd : forall h st e o, h (k_blob (p_rpc e)) = false ->
+  exec_rpc (projd h st) e o = (projd h (fst (fst (exec_rpc st e o))), snd (fst (exec_rpc st e o)), snd (exec_rpc st e o)).
+Proof.
+  intros h st e o H. unfold exec_rpc. change (s_reps (projd h st)) with (s_reps st). change (s_nts (projd h st)) with (s_nts st).
+  change (s_gen (projd h st)) with (s_gen st). change (known_of (projd h st) (s_gen st)) with (known_of st (s_gen st)).
+  rewrite zget_projd, H, exec_gettracts_projd, exec_extend_projd, ack_extend_projd by exact H.
+  split_all; reflexivity.
+Qed.
+
+Lemma exec_rpc_keep : forall h st e o, h (k_blob (p_rpc e)) = false ->
+  hkeep h st (fst (fst (exec_rpc st e o))) /\ s_tasks (fst (fst (exec_rpc st e o))) = s_tasks st.
+Proof.
+  intros h st e o H. unfold exec_rpc.
+  destruct (ack_extend_keep h st (k_blob (p_rpc e)) (decode_tracts false (k_aux (p_rpc e))) H) as [AK AT].
+  split_all; cbn [fst snd]; try (split; [apply hkeep_refl | reflexivity]); try (split; [apply hkeep_same; reflexivity | reflexivity]).
+  all: cbn [fst] in AK, AT; split; assumption.
+Qed.
+
+(* ------------------------------------------------------------------ events *)
+Definition NIP (h : Z -> bool) (st : state) (p1 p2 : state * list Z) : Prop := NI h st (fst p1) (fst p2) /\ snd p1 = snd p2.
+
+Lemma NIP_obs : forall h st s1 s2 (F : state -> list Z), NI h st s1 s2 -> (forall s, F (projd h s) = F s) -> NIP h st (s1, F s1) (s2, F s2).
+Proof. intros h st s1 s2 F N HF. split; [exact N|]. destruct N as (E & _). cbn [snd]. rewrite E. apply HF. Qed.
+
+Lemma NI_trans_same : forall h st s2 s1' s2', hkeep h st s2 -> NI h s2 s1' s2' -> NI h st s1' s2'.
+Proof. intros h st s2 s1' s2' K (E & K2 & T). split; [exact E|]. split; [eapply hkeep_trans; eauto | exact T]. Qed.
+
+Lemma NI_fold_victims : forall h l st s1 s2, NI h st s1 s2 ->
+  NI h st (fold_left (fun s x => flush 8 (resume s x false []) []) l s1) (fold_left (fun s x => flush 8 (resume s x false []) []) l s2).
+Proof.
+  intros h l. induction l as [|v l IH]; intros st s1 s2 N; cbn [fold_left]; [exact N|]. apply IH.
+  apply (NI_chain h st _ _ (fun s => flush 8 (resume s v false []) []) N). intros s Ts.
+  apply (NI_chain h s _ _ (fun s0 => flush 8 s0 [])); [now apply NI_resume | intros s0 T0; now apply NI_flush].
+Qed.
+
+Lemma step_exec_projd : forall h st mode r, T1 h st ->
+  (forall rp r1, parse_rpc r = Some (rp, r1) -> h (k_blob rp) = false) ->
+  NIP h st (step_exec (projd h st) mode r) (step_exec st mode r).
+Proof.
+  intros h st mode r T HB. unfold step_exec. change (s_pool (projd h st)) with (s_pool st).
+  destruct (parse_rpc r) as [[rp r1]|] eqn:P; [|split; [apply NI_same; auto | reflexivity]].
+  specialize (HB rp r1 eq_refl).
+  destruct r1 as [|nh r2]; [split; [apply NI_same; auto | reflexivity]|].
+  destruct (take nh r2) as [place r3].
+  destruct (find_pent (s_pool st) rp 0) as [e|] eqn:F; [|split; [apply NI_same; auto | reflexivity]].
+  pose proof (find_pent_eq _ _ _ _ F) as Erp.
+  set (hint := place ++ [-1] ++ match r3 with nd :: r4 => fst (take nd r4) | [] => [] end).
+  destruct (mode =? 4).
+  { cbv zeta.
+    assert (N : NI h st (flush 8 (resume (projd h st) e false hint) hint) (flush 8 (resume st e false hint) hint)).
+    { apply (NI_chain h st _ _ (fun s => flush 8 s hint)); [now apply NI_resume | intros s Ts; now apply NI_flush]. }
+    apply (NIP_obs h st _ _ (fun s1 => [0] ++ (if is_ts_kind (k_kind rp) then dump_replica (s_reps s1) (k_ts rp) (tkey (k_blob rp) (k_tract rp)) else []) ++ out_section s1) N).
+    intros s. reflexivity. }
+  destruct (mode =? 6).
+  { destruct (negb (k_kind rp =? K_PullTract)); [split; [apply NI_same; auto | reflexivity]|]. cbv zeta.
+    change (s_reps (projd h st)) with (s_reps st). change (s_nts (projd h st)) with (s_nts st).
+    match goal with |- context [set_reps st ?x] => set (reps' := x) end.
+    assert (N1 : NI h st (set_reps (projd h st) reps') (set_reps st reps')) by (apply NI_same; auto).
+    assert (N2 : NI h st (flush 8 (resume (set_reps (projd h st) reps') e false hint) hint) (flush 8 (resume (set_reps st reps') e false hint) hint)).
+    { apply (NI_chain h st _ _ (fun s => flush 8 (resume s e false hint) hint) N1). intros s Ts.
+      apply (NI_chain h s _ _ (fun s0 => flush 8 s0 hint)); [now apply NI_resume | intros s0 T0; now apply NI_flush]. }
+    set (sA := flush 8 (resume (set_reps (projd h st) reps') e false hint) hint) in *.
+    set (sB := flush 8 (resume (set_reps st reps') e false hint) hint) in *.
+    assert (EP : s_pool sA = s_pool sB) by (destruct N2 as (E & _); rewrite E; reflexivity). rewrite EP.
+    pose proof (NI_fold_victims h (filter (fun x => (p_st x =? 0) && (k_ts (p_rpc x) =? k_ts rp)) (s_pool sB)) st sA sB N2) as N3.
+    apply (NIP_obs h st _ _ (fun s1 => [1] ++ (if is_ts_kind (k_kind rp) then dump_replica (s_reps s1) (k_ts rp) (tkey (k_blob rp) (k_tract rp)) else []) ++ out_section s1) N3).
+    intros s. reflexivity. }
+  destruct (k_kind rp =? K_FixVersion).
+  { cbv zeta. change (s_nsynth (projd h st)) with (s_nsynth st). change (s_gen (projd h st)) with (s_gen st). change (s_term (projd h st)) with (s_term st).
+    set (sb := set_nsynth (set_pool st (pool_update (s_pool st) (set_pent e 1 [] [] (mode =? 2) (negb (mode =? 5))))) (s_nsynth st + 1)).
+    set (tk := new_task (- (s_nsynth st + 1)) 6 (s_gen st) (s_term st) (k_blob rp) (k_tract rp) [] (k_ver rp) (aux_nth rp 0) (p_id e)).
+    assert (Nb : NI h st (set_nsynth (set_pool (projd h st) (pool_update (s_pool st) (set_pent e 1 [] [] (mode =? 2) (negb (mode =? 5))))) (s_nsynth st + 1)) sb)
+      by (apply NI_same; auto).
+    assert (Nc : NI h st (start_task (set_nsynth (set_pool (projd h st) (pool_update (s_pool st) (set_pent e 1 [] [] (mode =? 2) (negb (mode =? 5))))) (s_nsynth st + 1)) tk) (start_task sb tk)).
+    { apply (NI_chain h st _ _ (fun s => start_task s tk) Nb). intros s Ts. apply NI_start_task; [exact Ts | exact HB]. }
+    set (sA := start_task (set_nsynth (set_pool (projd h st) (pool_update (s_pool st) (set_pent e 1 [] [] (mode =? 2) (negb (mode =? 5))))) (s_nsynth st + 1)) tk) in *.
+    set (sB := start_task sb tk) in *.
+    assert (EP : s_pool sA = s_pool sB) by (destruct Nc as (E & _); rewrite E; reflexivity). rewrite EP.
+    assert (Nd : NI h st (flush 8 sA hint) (flush 8 sB hint)).
+    { apply (NI_chain h st _ _ (fun s => flush 8 s hint) Nc). intros s Ts. now apply NI_flush. }
+    split; [exact Nd|]. cbn [snd]. destruct Nd as (E & _). rewrite E. reflexivity. }
+  rewrite <- Erp in HB.
+  rewrite (exec_rpc_projd h st e place HB). destruct (exec_rpc_keep h st e place HB) as [K1 Ts1].
+  destruct (exec_rpc st e place) as [[st1 res] tr]. cbn [fst snd] in *.
+  assert (T1a : T1 h st1) by (intros x Hx; rewrite Ts1 in Hx; exact (T x Hx)).
+  destruct (mode =? 3).
+  - rewrite (exec_rpc_projd h st1 e place HB). destruct (exec_rpc_keep h st1 e place HB) as [K2 Ts2].
+    destruct (exec_rpc st1 e place) as [[st1b res2] tr2]. cbn [fst snd] in *.
+    assert (T1b : T1 h st1b) by (intros x Hx; rewrite Ts2 in Hx; exact (T1a x Hx)).
+    change (s_pool (projd h st1b)) with (s_pool st1b).
+    set (s2 := set_pool st1b (pool_update (s_pool st1b) (set_pent e 2 res tr (mode =? 2) (negb (mode =? 5))))).
+    assert (N2 : NI h st (set_pool (projd h st1b) (pool_update (s_pool st1b) (set_pent e 2 res tr (mode =? 2) (negb (mode =? 5))))) s2).
+    { split; [reflexivity|]. split; [eapply hkeep_trans; [exact K1|]; eapply hkeep_trans; [exact K2 | apply hkeep_same; reflexivity] | exact T1b]. }
+    assert (N3 : NI h st (flush 8 (set_pool (projd h st1b) (pool_update (s_pool st1b) (set_pent e 2 res tr (mode =? 2) (negb (mode =? 5))))) hint) (flush 8 s2 hint)).
+    { apply (NI_chain h st _ _ (fun s => flush 8 s hint) N2). intros s Ts. now apply NI_flush. }
+    apply (NIP_obs h st _ _ (fun s1 => [1] ++ res ++ (if is_ts_kind (k_kind rp) then dump_replica (s_reps s1) (k_ts rp) (tkey (k_blob rp) (k_tract rp)) else []) ++ out_section s1) N3).
+    intros s. reflexivity.
+  - change (s_pool (projd h st1)) with (s_pool st1).
+    set (s2 := set_pool st1 (pool_update (s_pool st1) (set_pent e 2 res tr (mode =? 2) (negb (mode =? 5))))).
+    assert (N2 : NI h st (set_pool (projd h st1) (pool_update (s_pool st1) (set_pent e 2 res tr (mode =? 2) (negb (mode =? 5))))) s2).
+    { split; [reflexivity|]. split; [eapply hkeep_trans; [exact K1 | apply hkeep_same; reflexivity] | exact T1a]. }
+    assert (N3 : NI h st (flush 8 (set_pool (projd h st1) (pool_update (s_pool st1) (set_pent e 2 res tr (mode =? 2) (negb (mode =? 5))))) hint) (flush 8 s2 hint)).
+    { apply (NI_chain h st _ _ (fun s => flush 8 s hint) N2). intros s Ts. now apply NI_flush. }
+    apply (NIP_obs h st _ _ (fun s1 => [1] ++ res ++ (if is_ts_kind (k_kind rp) then dump_replica (s_reps s1) (k_ts rp) (tkey (k_blob rp) (k_tract rp)) else []) ++ out_section s1) N3).
+    intros s. reflexivity.
+Qed.
+
+(* the blobs an event names where it matters: creation of a blob, start of a curator task, an executed RPC, a probe *)
+Definition ev_ok (h : Z -> bool) (ev : list Z) : bool :=
+  match ev with
+  | [] => true
+  | c :: a =>
+      if c =? 2 then negb (h (hd 0 a))
+      else if (c =? 5) || (c =? 6) then negb (h (nth 2 a 0))
+      else if c =? 7 then match a with
+                          | _ :: r => match parse_rpc r with Some (rp, _) => negb (h (k_blob rp)) | None => true end
+                          | [] => true
+                          end
+      else if c =? 12 then negb (h (hd 0 a))
+      else true
+  end.
+
+Theorem step_projd : forall h st ev, T1 h st -> ev_ok h ev = true -> NIP h st (step (projd h st) ev) (step st ev).
+Proof.
+  intros h st ev T OK. unfold step. change (set_out (projd h st) []) with (projd h (set_out st [])).
+  assert (T0 : T1 h (set_out st [])) by exact T.
+  assert (K0 : forall s', hkeep h (set_out st []) s' -> hkeep h st s') by (intros s' K; exact K).
+  set (s := set_out st []) in *. clearbody s.
+  assert (ID : forall o, NIP h st (projd h s, o) (s, o)).
+  { intros o. split; [|reflexivity]. split; [reflexivity|]. split; [apply K0, hkeep_refl | exact T0]. }
+  assert (SAME : forall s1 s2 o, s_blobs s2 = s_blobs s -> s_dtr s2 = s_dtr s -> T1 h s2 -> s1 = projd h s2 -> NIP h st (s1, o) (s2, o)).
+  { intros s1 s2 o B D T2 E. split; [|reflexivity]. cbn [fst]. split; [exact E|]. split; [apply K0; now apply hkeep_same | exact T2]. }
+  assert (LIFT : forall p1 p2, NIP h s p1 p2 -> NIP h st p1 p2).
+  { intros p1 p2 [(E & K & T2) O]. split; [|exact O]. split; [exact E|]. split; [apply K0; exact K | exact T2]. }
+  destruct ev as [|c a]; [apply ID|]. unfold ev_ok in OK.
+  destruct (c =? 1). { destruct a; [apply ID|]. apply SAME; auto. }
+  destruct (c =? 2) eqn:C2.
+  { destruct a as [|x [|y [|z a]]]; try apply ID. cbn [hd] in OK. apply negb_true_iff in OK.
+    rewrite zget_projd, OK. destruct (zget (s_blobs s) x); [apply ID|].
+    split; [|reflexivity]. cbn [fst]. split; [|split].
+    - rewrite projd_set_blobs. f_equal. unfold projd. cbn [s_blobs set_dtr set_blobs]. symmetry.
+      apply (filter_zset _ (fun k => negb (h k))). rewrite OK. reflexivity.
+    - apply K0. split; [|intros; reflexivity]. intros b Hb. cbn [s_blobs set_blobs]. apply zget_zset_other. intros X. subst b. congruence.
+    - exact T0. }
+  destruct (c =? 3). { destruct a as [|x1 [|x2 [|x3 [|x4 [|x5 [|x6 [|x7 a]]]]]]]; try apply ID. apply SAME; auto. }
+  destruct (c =? 4). { destruct a as [|x1 [|x2 [|x3 [|x4 [|x5 [|x6 a]]]]]]; try apply ID. apply SAME; auto. }
+  destruct (c =? 5) eqn:C5.
+  { cbn [orb] in OK. destruct a as [|x1 [|x2 [|x3 [|x4 [|x5 a]]]]]; try apply ID. cbn [nth] in OK. apply negb_true_iff in OK.
+    destruct (take x5 a) as [bad rest]. change (s_gen (projd h s)) with (s_gen s). change (s_term (projd h s)) with (s_term s).
+    apply LIFT.
+    assert (N : NI h s (flush 8 (start_task (projd h s) (new_task x1 5 (s_gen s) (s_term s) x3 x4 bad 0 0 0)) []) (flush 8 (start_task s (new_task x1 5 (s_gen s) (s_term s) x3 x4 bad 0 0 0)) [])).
+    { apply (NI_chain h s _ _ (fun s0 => flush 8 s0 [])); [apply NI_start_task; auto | intros s0 T2; now apply NI_flush]. }
+    apply (NIP_obs h s _ _ out_section N). intros s0. reflexivity. }
+  destruct (c =? 6) eqn:C6.
+  { cbn [orb] in OK. destruct a as [|x1 [|x2 [|x3 [|x4 [|x5 [|x6 [|x7 a]]]]]]]; try apply ID. cbn [nth] in OK. apply negb_true_iff in OK.
+    change (s_gen (projd h s)) with (s_gen s). change (s_term (projd h s)) with (s_term s). apply LIFT.
+    assert (N : NI h s (flush 8 (start_task (projd h s) (new_task x1 6 (s_gen s) (s_term s) x3 x4 [] x5 x6 0)) []) (flush 8 (start_task s (new_task x1 6 (s_gen s) (s_term s) x3 x4 [] x5 x6 0)) [])).
+    { apply (NI_chain h s _ _ (fun s0 => flush 8 s0 [])); [apply NI_start_task; auto | intros s0 T2; now apply NI_flush]. }
+    apply (NIP_obs h s _ _ out_section N). intros s0. reflexivity. }
+  cbn [orb] in OK.
+  destruct (c =? 7).
+  { destruct a as [|mode r]; [apply ID|]. apply LIFT. apply step_exec_projd; auto.
+    intros rp r1 P. rewrite P in OK. apply negb_true_iff in OK. exact OK. }
+  destruct (c =? 8).
+  { destruct a as [|lose r]; [apply ID|]. unfold step_reply. change (s_pool (projd h s)) with (s_pool s).
+    destruct (parse_rpc r) as [[rp r1]|]; [|apply ID]. destruct (find_pent (s_pool s) rp 2) as [e|]; [|apply ID]. apply LIFT.
+    cbv zeta.
+    match goal with |- NIP h s (flush 8 (resume (projd h s) e ?d ?hint) ?hint, _) _ =>
+      assert (N : NI h s (flush 8 (resume (projd h s) e d hint) hint) (flush 8 (resume s e d hint) hint))
+        by (apply (NI_chain h s _ _ (fun s0 => flush 8 s0 hint)); [now apply NI_resume | intros s0 T2; now apply NI_flush]) end.
+    apply (NIP_obs h s _ _ out_section N). intros s0. reflexivity. }
+  destruct (c =? 9).
+  { destruct a as [|ts [|y a]]; try apply ID. unfold step_restart. change (s_pool (projd h s)) with (s_pool s). apply LIFT. cbv zeta.
+    assert (N : NI h s (projd h s) s) by (apply NI_same; auto).
+    apply (NIP_obs h s _ _ out_section (NI_fold_victims h _ s _ _ N)). intros s0. reflexivity. }
+  destruct (c =? 10). { destruct a; [|apply ID]. apply SAME; auto. }
+  destruct (c =? 11). { destruct a as [|ts [|y a]]; try apply ID. apply SAME; auto. }
+  destruct (c =? 12).
+  { destruct a as [|x1 [|x2 [|x3 [|x4 [|x5 a]]]]]; try apply ID. cbn [hd] in OK. apply negb_true_iff in OK.
+    unfold step_probe. rewrite tget_projd. unfold tkey. cbn [fst]. rewrite OK.
+    destruct (tget (s_dtr s) (x1, x2)) as [[ver hosts]|]; [|apply ID]. destruct ((x3 =? 1) && (x4 =? 0)); [apply ID|].
+    change (s_term (projd h s)) with (s_term s). rewrite (change_tract_projd h s) by exact OK.
+    destruct (change_tract_keep h s (s_term s - x4) x1 x2 (ver + x3) hosts OK) as [K Ts].
+    destruct (change_tract s (s_term s - x4) x1 x2 (ver + x3) hosts) as [s1 c1]. cbn [fst snd] in *.
+    split; [|reflexivity]. cbn [fst]. split; [reflexivity|]. split; [apply K0; exact K | intros x Hx; rewrite Ts in Hx; exact (T0 x Hx)]. }
+  destruct (c =? 13).
+  { unfold step_issue. destruct (parse_rpc a) as [[rp r1]|]; [|apply ID].
+    change (issue_allowed (projd h s) rp) with (issue_allowed s rp). destruct (issue_allowed s rp); [|apply ID]. apply SAME; auto. }
+  destruct (c =? 14).
+  { destruct a as [|x1 [|x2 [|x3 a]]]; try apply ID. unfold step_finclient.
+    change (s_ops (projd h s)) with (s_ops s). change (s_pool (projd h s)) with (s_pool s). change (s_acked (projd h s)) with (s_acked s).
+    destruct (find_op (s_ops s) x1) as [o|]; [|apply ID].
+    change (ack_allowed (projd h s) o) with (ack_allowed s o).
+    split_all; try apply ID; apply SAME; auto. }
+  destruct (c =? 15).
+  { destruct a as [|op [|y a]]; try apply ID. change (s_fin (projd h s)) with (s_fin s). destruct (zget (s_fin s) op); [|apply ID]. apply SAME; auto. }
+  destruct (c =? 16).
+  { unfold step_rpcdone. destruct (parse_rpc a) as [[rp r1]|]; [|apply ID]. change (s_done (projd h s)) with (s_done s).
+    destruct (find _ (s_done s)) as [[x0 c0]|]; [|apply ID]. apply SAME; auto. }
+  destruct (c =? 17).
+  { unfold step_inject. destruct (parse_rpc a) as [[rp r1]|]; [|apply ID]. destruct ((k_cli rp <? 0) && _); [|apply ID]. apply SAME; auto. }
+  apply ID.
+Qed.
+
+(* the schedule predicate of C01 reads the durable records only for the tract an executed RPC names *)
+Lemma ok_ev_projd : forall L h st ev, ev_ok h ev = true -> ok_ev L (projd h st) ev = ok_ev L st ev.
+Proof.
+  intros L h st ev OK. unfold ok_ev. destruct ev as [|c a]; [reflexivity|].
+  destruct (c =? 3); [reflexivity|]. destruct (c =? 4); [reflexivity|]. destruct ((c =? 5) || (c =? 6)); [reflexivity|].
+  destruct (c =? 7) eqn:C7; [|reflexivity]. apply Z.eqb_eq in C7. subst c. cbn in OK.
+  destruct a as [|mode r]; [reflexivity|]. destruct (parse_rpc r) as [[rp r1]|]; [|reflexivity]. apply negb_true_iff in OK.
+  change (s_pool (projd h st)) with (s_pool st). destruct (find_pent (s_pool st) rp 0); [|reflexivity].
+  unfold durable, stale_pull. rewrite !tget_projd. unfold tkey. cbn [fst]. rewrite OK. reflexivity.
 Qed.
